@@ -43,6 +43,9 @@ type Op struct {
 	Unknown string   `json:"unknown,omitempty"` // poll with a code that was never issued: random | truncated | extended | empty | usercode
 	User    int      `json:"user,omitempty"`    // approve: user index
 	Timeout bool     `json:"timeout,omitempty"` // poll: storage time-out on GetDeviceAuthorizatonState
+	// Stall (with Timeout): how the state lookup times out. "" = it answers context.DeadlineExceeded at once | wrapped = the same
+	// wrapped with %w | ctx, ctx-wrapped = it stalls and relies on the deadline of the context it is handed (see stall_test.go)
+	Stall string `json:"stall,omitempty"`
 	Host    int      `json:"host,omitempty"`
 	Fwd     int      `json:"fwd,omitempty"`
 	// rpflow: a whole device flow driven through the library's own client helpers (see rpflow_test.go)
@@ -72,7 +75,7 @@ type UCCase struct {
 
 type Case struct {
 	ErrStyle   string         `json:"err_style,omitempty"` // how the storage words its own refusals (vkit.Store.refuse)
-	Kind       string         `json:"kind"`                // history | usercode | realtime
+	Kind       string         `json:"kind"`                // history | usercode | realtime | stall
 	Router     string         `json:"router,omitempty"`
 	IssuerMode string         `json:"issuer_mode,omitempty"`
 	Issuer     string         `json:"issuer,omitempty"`
@@ -84,6 +87,7 @@ type Case struct {
 	UC         *UCCase        `json:"uc,omitempty"`
 	RT         []RTSub        `json:"rt,omitempty"`       // realtime
 	ExtraMs    int            `json:"extra_ms,omitempty"` // realtime: wait = longest lifetime + 2 s guard + ExtraMs
+	Stalls     []StallSub     `json:"stalls,omitempty"`   // stall (TestStall): providers whose state lookup really stalls, one shared wait
 }
 
 // ---- generators ------------------------------------------------------------------
@@ -102,6 +106,7 @@ var (
 	nonASCII  = []string{"äöüßéèêñ", "абвгдежзик", "日本語漢字仮名", "αβγδεζηθ", "aé日😀Ж9", "😀😁😂🤣😃😄"}
 	singles   = []string{"A", "7", "é", "日", "😀"}
 	codeIdx   = []int{0, 0, 0, 0, 1, 1, 2, 3}
+	pollEdges = []int{1, 1, 1, 2, 4, 5, 6, 60, 3600}
 	kindsOK   = []string{"conf_basic", "conf_basic", "conf_post", "conf_jwt", "pub_native", "pub_native", "pub_ua"}
 	kindsAll  = append(append([]string{}, kindsOK...), kindsOK...)
 )
@@ -172,9 +177,13 @@ func genConfig(t *rapid.T) Case {
 	} else {
 		c.Device.LifetimeS = rapid.IntRange(30, 3600).Draw(t, "lifetime")
 	}
-	if rapid.IntRange(0, 9).Draw(t, "nopoll") == 0 {
+	switch rapid.IntRange(0, 9).Draw(t, "nopoll") {
+	case 0:
 		c.Device.PollS = 0
-	} else {
+	case 1, 2, 3:
+		// the smallest intervals, the interval a device assumes when none is announced (5 s) and its neighbours, long ones
+		c.Device.PollS = rapid.SampledFrom(pollEdges).Draw(t, "polledge")
+	default:
 		c.Device.PollS = rapid.IntRange(1, 30).Draw(t, "poll")
 	}
 	c.Device.UserFormPath = rapid.SampledFrom(formPaths).Draw(t, "formpath")
@@ -244,6 +253,9 @@ func genPoll(t *rapid.T, o *Op) {
 		o.Client = rapid.SampledFrom([]int{-1, -1, -1, -1, -1, -1, 0, 1, 2}).Draw(t, "client")
 	}
 	o.Timeout = rapid.IntRange(0, 7).Draw(t, "timeout") == 0
+	if o.Timeout {
+		o.Stall = rapid.SampledFrom(stallKindsSeq).Draw(t, "stall")
+	}
 	if rapid.IntRange(0, 9).Draw(t, "unknown") == 0 {
 		o.Unknown = rapid.SampledFrom([]string{"random", "truncated", "extended", "empty", "usercode"}).Draw(t, "unknownkind")
 	}
@@ -438,6 +450,9 @@ type world struct {
 	parOverlap bool
 	parSig     []string
 	gateJ0     int // journal length when the first gate was registered (the store counts gated calls from then on); -1: none yet
+	stall      *staller
+	// polls whose stalling state lookup was ended by the library's own time-out (stall_test.go)
+	stallWaited int
 }
 
 func (w *world) issuerFor(o Op) string {
@@ -534,6 +549,10 @@ func run(c Case) (res *vkit.Result) {
 		runRealtime(c, res)
 		return res
 	}
+	if c.Kind == "stall" {
+		runStall(c, res)
+		return res
+	}
 	runHistory(c, res)
 	return res
 }
@@ -544,7 +563,7 @@ func newWorld(c Case, res *vkit.Result) *world {
 		res.Label("malformed-case")
 		return nil
 	}
-	w := &world{c: c, res: res, seenDev: map[string]bool{}, classes: map[string]bool{}, gateJ0: -1}
+	w := &world{c: c, res: res, seenDev: map[string]bool{}, classes: map[string]bool{}, gateJ0: -1, stall: &staller{}}
 	for i, cc := range c.Clients {
 		w.specs = append(w.specs, clientSpec(i, cc))
 	}
@@ -552,6 +571,7 @@ func newWorld(c Case, res *vkit.Result) *world {
 	spec := vkit.DefaultProviderSpec(c.Router)
 	spec.IssuerMode, spec.Issuer, spec.Insecure = c.IssuerMode, c.Issuer, c.Insecure
 	spec.Device = c.Device
+	spec.WrapStorage = w.stall.wrap
 	sut, err := vkit.Build(spec, w.st)
 	if err != nil {
 		res.Fail("C16:provider-construction", "NewProvider refused a valid configuration %+v: %v", spec, err)
@@ -819,7 +839,15 @@ func (w *world) decide(i int, o Op) {
 
 // ---- polling ---------------------------------------------------------------------------
 
-func (w *world) poll(i int, o Op) {
+// preparedPoll is a device-code token request ready to be sent.
+type preparedPoll struct {
+	obs  pollObs
+	form url.Values
+	cred vkit.Cred
+}
+
+// prepPoll resolves the symbolic operands of a poll op against the live model.
+func (w *world) prepPoll(i int, o Op) *preparedPoll {
 	var m *codeM
 	code := ""
 	unknown := o.Unknown
@@ -879,20 +907,35 @@ func (w *world) poll(i int, o Op) {
 	cr, ident, proven, pres := w.cred(j, o.Pres, other, issuer)
 
 	form := url.Values{"grant_type": {vkit.GDevice}, "device_code": {code}}
-	w.aim(o)
 	before := map[string]bool{}
 	for id := range w.st.Tokens {
 		before[id] = true
 	}
+	return &preparedPoll{form: form, cred: cr, obs: pollObs{i: i, m: m, code: code, unknown: unknown, j: j, ident: ident, proven: proven, pres: pres, bodyID: cr.BodyID,
+		timeout: o.Timeout, before: before}}
+}
+
+func (w *world) poll(i int, o Op) {
+	pp := w.prepPoll(i, o)
+	w.aim(o)
 	if o.Timeout {
-		w.st.SetFaults(vkit.Fault{Method: "GetDeviceAuthorizatonState", Kind: "deadline"})
+		switch o.Stall {
+		case "":
+			w.st.SetFaults(vkit.Fault{Method: "GetDeviceAuthorizatonState", Kind: "deadline"})
+		case "wrapped":
+			w.st.SetFaults(vkit.Fault{Method: "GetDeviceAuthorizatonState", Kind: "deadline-wrapped"})
+		default:
+			// the lookup stalls; in a history nobody really waits (see staller)
+			w.stall.arm(o.Stall, false, nil)
+		}
+		pp.obs.stallKind = o.Stall
 	}
-	t0 := time.Now()
-	r := w.ag.Token(form, cr)
-	t1 := time.Now()
+	pp.obs.t0 = time.Now()
+	pp.obs.r = w.ag.Token(pp.form, pp.cred)
+	pp.obs.t1 = time.Now()
 	w.st.SetFaults()
-	w.judgePoll(pollObs{i: i, m: m, code: code, unknown: unknown, j: j, ident: ident, proven: proven, pres: pres, bodyID: cr.BodyID,
-		timeout: o.Timeout, before: before, r: r, t0: t0, t1: t1})
+	pp.obs.stall = w.stall.disarm()
+	w.judgePoll(pp.obs)
 }
 
 // pollObs is one observed device-code token request: who sent it (as which client, with which presentation), for which
@@ -909,6 +952,9 @@ type pollObs struct {
 	before       map[string]bool // ids of the access tokens the storage held before the request
 	r            *vkit.Resp
 	t0, t1       time.Time
+	stallKind    string     // Op.Stall / StallSub.Stall of a poll whose state lookup times out
+	stall        []stallObs // what the stalling lookup saw (staller)
+	stalled      bool       // the harness itself made the request slow (real stall): the 1 s rule for stalled requests does not apply
 }
 
 // judgePoll is the per-request oracle of a device-code token request (sent by the harness' agent or by the library's
@@ -960,10 +1006,15 @@ func (w *world) judgePoll(p pollObs) {
 		res.Fail("C16:poll-2xx-without-tokens", "op %d: token endpoint answered %d without tokens and without refusing: %s", i, r.Status, r.Describe())
 	}
 
+	// --- a state lookup that stalls: the library, not the device, has to bound it (stall_test.go)
+	if w.judgeStall(&p, state, rel) {
+		return
+	}
+
 	// --- expectation per model
 	e := w.expectOf(&p, cs)
 	expect, named, mustTokens, grey := e.name, e.named, e.mustTokens, e.grey
-	if !grey && t1.Sub(t0) > time.Second {
+	if !grey && t1.Sub(t0) > time.Second && !p.stalled {
 		// the library bounds the storage call of a poll with its own 4 s deadline (then slow_down): a request that
 		// was stalled this long (machine load) proves nothing about named errors or completeness
 		expect, grey, mustTokens, named = "grey:slow-request", true, false, nil
@@ -979,7 +1030,11 @@ func (w *world) judgePoll(p pollObs) {
 	if rel == "owner" && !grey {
 		res.Label("owner-poll-in-state:" + state)
 	}
-	cls := fmt.Sprintf("%s/%s/%s/%v>%s", state, rel, pres, o.Timeout, expect)
+	tmo := fmt.Sprint(o.Timeout)
+	if o.Timeout && p.stallKind != "" {
+		tmo += ":" + p.stallKind
+	}
+	cls := fmt.Sprintf("%s/%s/%s/%s>%s", state, rel, pres, tmo, expect)
 	w.classes[cls] = true
 	if grey {
 		w.greyPolls++
@@ -1248,10 +1303,11 @@ func scopeClaim(v any) []string {
 // ---- props ---------------------------------------------------------------------------------
 
 const ruleHistory = "history cases (TestRapid) = router (provider|legacy) x issuer strategy (static|host|forwarded, secure/insecure, with/without path; Host and Forwarded vary per request) x " +
-	"device config (lifetime 30-3600 s or 0-3 s, poll interval 0-30 s, user form path, user-code alphabet {base20, digits, non-ASCII, single rune, generated letters/digits} x length 1-16 x dash interval 0..length+1) x " +
+	"device config (lifetime 30-3600 s or 0-3 s, poll interval 0-30 s with the edges {1, 2, 4, 5, 6, 60, 3600} s drawn more often, user form path, user-code alphabet {base20, digits, non-ASCII, single rune, generated letters/digits} x length 1-16 x dash interval 0..length+1) x " +
 	"3 clients (confidential basic/post/private_key_jwt, public native/user_agent, two odd registrations; with/without device grant, refresh grant, JWT access tokens; secret with or without URL-reserved characters) x " +
 	"2-14 (thorough 24) ops: device_authorize(client, presentation right|id_only|cross, scopes), approve(code#, user#) via the user code, deny, expire, " +
-	"poll(code# or never-issued code, as client#, presentation right|id_only|wrong_secret|cross(body client_id of another client)|none, optional storage time-out), " +
+	"poll(code# or never-issued code, as client#, presentation right|id_only|wrong_secret|cross(body client_id of another client)|none, optional storage time-out of the state lookup: " +
+	"answers context.DeadlineExceeded at once, plain | wrapped, or stalls and relies on the deadline of the context it is handed, answering ctx.Err() plain | wrapped), " +
 	"rpflow(client, scopes, relying party built with rp.NewRelyingPartyOIDC as the client is registered: secret | JWT-profile signer from key+kid | signer from key file data | signer+secret | nothing; authFn none|header|form; " +
 	"via rp.DeviceAuthorization+rp.DeviceAccessToken | client.CallDeviceAuthorizationEndpoint+client.PollDeviceAccessTokenEndpoint; the user approves|denies|the code expires|the device cancels right before the 0th..2nd poll of the helper is served; " +
 	"in-process transport, every request of the helpers judged by the same per-request oracles, helper result = last provider answer); " +
@@ -1263,7 +1319,7 @@ const ruleUC = "user-code cases (TestUserCode) = same alphabet classes x length 
 	"layout per config, codes not constant (>= 2 symbols) and pairwise distinct when the code space has >= 48 bit; op.NewDeviceCode(n in 16..64) decodes to n bytes and never repeats; " +
 	"non-trivial = dash interval inside the code or non-ASCII alphabet; distinct = (alphabet, length, dash interval)"
 
-const ruleAll = ruleHistory + " || " + ruleUC + " || " + ruleRT + " || " + ruleIL
+const ruleAll = ruleHistory + " || " + ruleUC + " || " + ruleRT + " || " + ruleIL + " || " + ruleStall
 
 var prop = vkit.Prop[Case]{ID: "C16", Rule: ruleAll, Gen: genCase, Run: run}
 
